@@ -63,6 +63,13 @@ Theorem T01_gen_small_functions : forall p x y t c,
   GameGen.flip c = Ok (Tak.flip c).
 Proof. exact gen_small_functions. Qed.
 
+(* Position.from_squares with Config.flat_count / capstone_count (used by parse_tps, T13): `config_ok cfg` = when no custom
+   count is given the size indexes the nine-entry DEFAULT tables (0..8); embed_value None = the ValueError
+   "Wrong board size" *)
+Theorem T01_gen_from_squares_eq : forall cfg sqs pl, config_ok cfg ->
+  GameGen.from_squares cfg sqs pl = embed_value (Tak.from_squares cfg sqs pl).
+Proof. exact gen_from_squares_eq. Qed.
+
 (* ---- C01 / C03 / C04 / C02 transported to the translated source ---- *)
 (* C01: accepted iff the rulebook relation allows it, with exactly the prescribed successor (every move value) *)
 Theorem T01_gen_move_iff : forall p m p', wf_pos p -> (GameGen.move p m = Ok p' <-> legal_step p m p').
